@@ -611,6 +611,13 @@ func (a *Array) PopIterate(fn ArrayPopIterationFunc) error {
 	// Stale entries would make later inserts fail in incrementIndexFrom().
 	clear(a.mutableElementIndex)
 
+	// If this array is a child, it notifies parent by invoking callback because
+	// this array is changed by removing all elements.
+	err = a.notifyParentIfNeeded()
+	if err != nil {
+		return err
+	}
+
 	return nil
 }
 
